@@ -109,6 +109,18 @@ def formatIntZero (width : Nat) (i : Int) : Str :=
 def formatIntRight (width : Int) (i : Int) : Str :=
   padLeft ' ' width.toNat (strOfInt i)
 
+/-- `'{:{align}{width}d}'.format(i, align=align, width=width)`: the format specification is the string
+    `align + str(width) + 'd'`.  Modelled for `align` in `'>'`, `'<'`; any other alignment string is outside
+    the modelled subset and reported as an error value (so no theorem `= .ok _` can be proved about it).
+    A negative `width` yields `'>-3d'`, which Python parses as sign option `-` followed by width 3, and
+    `width = 0` yields `'>0d'` (zero flag, no width): hence `width.natAbs`. -/
+def formatIntAlign (align : Str) (width : Int) (i : Int) : Except Exc Str :=
+  let body := strOfInt i
+  let w := width.natAbs
+  if align = ['>'] then .ok (padLeft ' ' w body)
+  else if align = ['<'] then .ok (body ++ List.replicate (w - body.length) ' ')
+  else .error (.raised "py2lean: format alignment outside the modelled subset")
+
 /-! ### `dict` (insertion ordered) -/
 
 /-- `k in d` -/
